@@ -37,3 +37,6 @@ pub mod validate;
 
 #[cfg(feature = "pyo3")]
 pub mod pyo3;
+
+#[cfg(feature = "verif")]
+pub mod verif_hooks;
